@@ -108,6 +108,49 @@ def scenarios():
         return [a, b]
     out.append(dict(name="registry", lazy=False, make=mk_reg, expected=[("phpass", True), ("phpass", True)],
                     code=codes(reg.get_crypt_handler, reg.register_crypt_handler), init_names=()))
+
+    # F: a fresh (non-lazy) context: the per-category record lists are built on the first identify/verify
+    def mk_ctx_first():
+        ctx = pc.CryptContext(schemes=["des_crypt", "md5_crypt", "sha256_crypt"])
+        return [lambda: ctx.verify("pw", sha_h), lambda: (ctx.identify(md5h), ctx.verify("pw", sha_h))]
+    cfg = pc._CryptConfig
+    out.append(dict(name="context-first-identify", lazy=False, make=mk_ctx_first, expected=[True, ("md5_crypt", True)],
+                    code=codes(*[getattr(cfg, a) for a in ("_get_record_list", "identify_record", "get_record", "_get_record_options_with_flag") if hasattr(cfg, a)]),
+                    init_names=()))
+
+    # G: first hash on a fresh multi-backend hasher while another thread only asks about backends
+    def mk_backend_query(base, h, query):
+        def make():
+            Hc = base.using()
+            q = {"has": lambda: Hc.has_backend("builtin"), "get": lambda: Hc.get_backend() in Hc.backends, "has-any": lambda: Hc.has_backend()}[query]
+            return [lambda: Hc.verify("pw", h), q]
+        return make
+    qcode = bcode + codes(uh.BackendMixin.has_backend)
+    for query in ("has", "get", "has-any"):
+        out.append(dict(name=f"backend-stub+{query}:md5_crypt", lazy=False, make=mk_backend_query(H.md5_crypt, md5h, query), expected=[True, True], code=qcode, init_names=()))
+
+    # H: the DES tables are built on the first block operation
+    import passlib.crypto.des as pdes
+    if hasattr(pdes, "_load_tables"):
+        tabs = [n for n in ("PCXROT", "IE3264", "SPE", "CF6464") if hasattr(pdes, n)]
+
+        def mk_des():
+            for n in tabs:
+                setattr(pdes, n, None)
+            return [lambda: pdes.des_encrypt_int_block(0x133457799BBCDFF1, 0x0123456789ABCDEF), lambda: pdes.des_encrypt_int_block(0, 0, 5, 2)]
+        want = [pdes.des_encrypt_int_block(0x133457799BBCDFF1, 0x0123456789ABCDEF), pdes.des_encrypt_int_block(0, 0, 5, 2)]
+        out.append(dict(name="des-tables", lazy=False, make=mk_des, expected=want, code=codes(pdes._load_tables, pdes.des_encrypt_int_block), init_names=()))
+
+    # I: digest lookups cache their result on first use
+    import passlib.crypto.digest as pdig
+
+    def mk_lookup():
+        try:
+            pdig.lookup_hash.clear_cache()
+        except Exception:
+            pass
+        return [lambda: pdig.lookup_hash("sha256").digest_size, lambda: pdig.lookup_hash("sha256").name]
+    out.append(dict(name="lookup_hash", lazy=False, make=mk_lookup, expected=[32, "sha256"], code=codes(pdig.lookup_hash, pdig.HashInfo.__init__), init_names=()))
     return out
 
 
@@ -166,6 +209,17 @@ def run(chk):
         if not r.error or "violated" not in r.error:
             raise tlc.MachineryError("negative control: the unprotected protocol was not refuted by TLC")
         chk.extra.setdefault("negative_controls", []).append(f"unprotected protocol (onload={onload}) refuted by TLC: {r.error.splitlines()[0]}")
+    # 1b. lazily imported modules
+    W = tlc.Raw('[t1 |-> 1, t2 |-> 3, t3 |-> 2]')
+    r = tlc.run_instance("ModuleLoad", dict(Threads={"t1", "t2", "t3"}, NAttrs=3, Wants=W, Shortcut=False), name="C19_mod", spec="Spec",
+                         invariants=["AllResolved"], properties=["Terminates"], deadlock=False, coverage=False, timeout=600)
+    chk.add_tlc("ModuleLoad: importers serialised by the per-module import lock, 3 threads (safety + termination)", r)
+    r = tlc.run_instance("ModuleLoad", dict(Threads={"t1", "t2", "t3"}, NAttrs=3, Wants=W, Shortcut=True), name="C19_mod_neg", spec="Spec",
+                         invariants=["AllResolved"], deadlock=False, coverage=False, timeout=600, expect_ok=False)
+    if not r.error or "violated" not in r.error:
+        raise tlc.MachineryError("negative control: the shortcut resolver was not refuted by TLC")
+    chk.extra.setdefault("negative_controls", []).append("resolver bypassing the import lock refuted by TLC (AttributeError on a half-executed module)")
+    import_races(chk, quick)
     # 2. real schedules
     install_coop_locks()
     traces = []
@@ -247,6 +301,77 @@ def run(chk):
     chk.assumptions += ["yield points are the bytecode instructions of the listed initialisation functions and lock operations; everything else runs atomically",
                         "C-level atomicity of dict/attribute operations (GIL build)",
                         "bcrypt's shared-owner backend loading is not schedule-explored (its state cannot be reset inside one process)"]
+
+
+IMPORT_CHILD = r'''
+import sys, threading, json, warnings
+warnings.simplefilter("ignore")
+sys.path.insert(0, %(repo)r)
+modfile, pause_line, name_a, name_b = %(modfile)r, %(line)d, %(a)r, %(b)r
+from passlib import registry
+paused, b_done = threading.Event(), threading.Event()
+res = {}
+mon = sys.monitoring
+TOOL = 4
+mon.use_tool_id(TOOL, "verif-import")
+state = {"hit": False}
+def on_line(code, line):
+    # the thread executing the module body stops at the chosen line until the other thread has finished - or had time to block
+    if not state["hit"] and code.co_filename.endswith(modfile) and code.co_name == "<module>" and line >= pause_line:
+        state["hit"] = True
+        paused.set()
+        b_done.wait(0.6)
+mon.register_callback(TOOL, mon.events.LINE, on_line)
+mon.set_events(TOOL, mon.events.LINE)
+def run(key, name):
+    try:
+        h = registry.get_crypt_handler(name)
+        res[key] = ["ok", getattr(h, "name", None)]
+    except BaseException as e:
+        res[key] = ["error", type(e).__name__, str(e)[:120]]
+def a():
+    run("a", name_a)
+    paused.set()
+def b():
+    paused.wait(5)
+    run("b", name_b)
+    b_done.set()
+ta, tb = threading.Thread(target=a), threading.Thread(target=b)
+ta.start(); tb.start(); ta.join(20); tb.join(20)
+mon.set_events(TOOL, 0)
+print(json.dumps({"res": res, "paused_inside": state["hit"]}))
+'''
+
+
+def import_races(chk, quick):
+    """S->I for ModuleLoad: thread A is stopped inside the body of a handler module (at several depths) while thread B resolves
+    another name of the same module, in a fresh interpreter each time"""
+    import subprocess
+    import sys
+    import os
+    mods = [("handlers/sha2_crypt.py", "sha256_crypt", "sha512_crypt"), ("handlers/digests.py", "hex_md5", "hex_sha512"),
+            ("handlers/pbkdf2.py", "pbkdf2_sha1", "grub_pbkdf2_sha512"), ("handlers/ldap_digests.py", "ldap_md5", "ldap_salted_sha512")]
+    if quick:
+        mods = mods[:3]
+    for modfile, a, b in mods:
+        path = os.path.join(chk.repo, "passlib", modfile)
+        nlines = sum(1 for _ in open(path))
+        for frac in ((0.3, 0.7) if quick else (0.1, 0.3, 0.5, 0.7, 0.9)):
+            line = int(nlines * frac)
+            src = IMPORT_CHILD % dict(repo=chk.repo, modfile="passlib/" + modfile, line=line, a=a, b=b)
+            p = subprocess.run([sys.executable, "-c", src], capture_output=True, text=True, timeout=120)
+            try:
+                out = json.loads(p.stdout.strip().splitlines()[-1])
+            except Exception:
+                raise tlc.MachineryError(f"import race child failed: {p.stderr[-300:]}")
+            chk.count(("import-race", modfile, frac))
+            chk.action("import-race")
+            chk.traces += 1
+            res = out["res"]
+            if res.get("a") != ["ok", a] or res.get("b") != ["ok", b]:
+                chk.violation(f"registry-import:{modfile}:{(res.get('b') or res.get('a') or ['?', '?'])[1]}",
+                              f"while one thread was importing passlib/{modfile} (stopped at line {line}), resolving {a!r} / {b!r} gave {res}",
+                              {"module": modfile, "line": line, "results": res, "paused_inside_module": out["paused_inside"]})
 
 
 def replay(chk, path):
